@@ -478,7 +478,11 @@ func (s *verifHoldRealSuite) TestVerifHoldRealRun(c *C) {
 				c.Assert(err, IsNil)
 				chg := st.NewChange("refresh-snap", "...")
 				chg.AddAll(ts)
-				s.settle(c)
+				// like snapmgrBaseTest.settle, with a watchdog that tolerates an overloaded machine
+				st.Unlock()
+				serr := s.o.Settle(3 * time.Minute)
+				st.Lock()
+				c.Assert(serr, IsNil)
 				c.Assert(chg.Err(), IsNil)
 				c.Assert(chg.Status(), Equals, state.DoneStatus)
 				refreshes++
